@@ -6,6 +6,12 @@ VERIF = os.path.dirname(os.path.dirname(os.path.abspath(__file__)))
 CHECKS = {
  'C01': ('model_checking', 'TLC model checking of the command semantics (MC_Data/MC_C01) + TLC-generated per-transition tests and seeded random histories replayed on the real server + TLC trace validation (FerrousTrace.tla)',
          'Every reply and the dataset after every command of the explored histories equal what the TLA+ reference relation allows; laws of the relation itself are model-checked on a bounded instance. Conformance holds for the recorded executions only.'),
+ 'C03': ('model_checking', 'TLC model checking of spec/Colls.tla (MC_Data/MC_C03) + TLC-generated per-transition tests and seeded random histories on the real server + TLC trace validation',
+         'As C01 for lists, sets and hashes.'),
+ 'C04': ('model_checking', 'TLC model checking of spec/ZSets.tla order laws (MC_Data/MC_C04) + generated tests and random histories + skip-list invariant hook + TLC trace validation',
+         'Every sorted-set reply of the explored histories agrees with the (score, member) order derived in the spec; the skip list is structurally checked after every mutation; the order laws are model-checked on a bounded instance.'),
+ 'C07': ('model_checking', 'TLC model checking of all interleavings of 2 connections over the transaction catalogue (MC_Txn) + generated tests + concurrent client threads ordered by the server-side command log + TLC trace validation',
+         'EXEC is one atomic step of the spec; every reply of concurrently running clients must be explained by the sequential spec in the logged execution order, so an interleaving inside EXEC, a lost slot or reordering is rejected.'),
 }
 NOT_YET = {}
 
